@@ -119,7 +119,7 @@ def main():
             elif any(v != vals[0] for v in vals):
                 V.violation('nondeterministic:' + key, f'scores differ between repetitions/processes: {sorted(set(vals))}', c)
             e = (c['rnum'] / DEN) * O.vec_value(c['vec'], len(c['y']))
-            if abs(vals[0] - e) > MC.tol(e, 2.0):
+            if not (abs(vals[0] - e) <= MC.tol(e, 2.0)):
                 drift += 1
         # (3) sample-only
         areq, ameta = [], []
@@ -225,7 +225,7 @@ def main():
             areq.append([y2, x, rr, rq[3]])
             ameta.append((k, vals[0]))
             e = f32(rr) * O.value(O.sample_score(y, x, rq[3], O.spec_sample_final(x, final_of(rr, n))), n)
-            if abs(vals[0] - e) > MC.tol(e, 2.0):
+            if not (abs(vals[0] - e) <= MC.tol(e, 2.0)):
                 drift += 1
     agot, acr = MC.real_eval('score', areq, poison=MC.POISONS, stride=True)
     for (k, base), rq, s in zip(ameta, areq, agot):
